@@ -646,11 +646,27 @@ func c12FixupAttrs(c *Ctx, idx int, r *Rng) {
 	ncommits := 2 + r.Intn(2)
 	var contents []map[string][]byte
 	cur := map[string][]byte{}
+	// the attributes may CHANGE in the course of the history: what a commit's files should be is decided
+	// by that commit's own attribute files, whatever an earlier commit said about the same blob
+	changeAt := -1
+	if r.Chance(35) {
+		changeAt = 1 + r.Intn(ncommits-1)
+	}
+	var effPer []map[string]string
 	for k := 0; k < ncommits; k++ {
 		must := Pick(r, files)
+		if k == changeAt {
+			root = Pick(r, []string{"*.txt filter=lfs diff=lfs merge=lfs -text\n", "raw/*.bin filter=lfs diff=lfs merge=lfs -text\n", "*.bin -filter\n*.txt filter=lfs diff=lfs merge=lfs -text\n", "# nothing tracked any more\n"})
+			w.write(".gitattributes", []byte(root))
+			must = ""
+		}
 		for _, f := range files {
-			if k == 0 || f == must || r.Chance(40) {
+			if k == 0 || f == must || (k != changeAt && r.Chance(40)) || (k == changeAt && r.Chance(15)) {
 				b := r.Bytes(Pick(r, []int{30, 1500}))
+				if strings.HasSuffix(f, ".txt") {
+					// `*.txt text` may be in force: keep Git's end-of-line conversion out of the comparison
+					b = bytes.ReplaceAll(b, []byte("\r"), []byte("x"))
+				}
 				w.write(f, b)
 				cur[f] = b
 			}
@@ -661,13 +677,17 @@ func c12FixupAttrs(c *Ctx, idx int, r *Rng) {
 		}
 		contents = append(contents, snap)
 		w.git("add", "-A")
-		w.git("commit", "-qm", fmt.Sprintf("c%d", k))
+		w.git("commit", "-qm", fmt.Sprintf("c%d", k), "--allow-empty")
+		effPer = append(effPer, checkAttr(w.dir, files))
 	}
 	_ = want
-	eff := checkAttr(w.dir, files)
+	eff := effPer[len(effPer)-1]
+	if changeAt >= 0 {
+		c.R.Count("import.fixup-attrs.changing")
+	}
 	_, oldOrder := c12ReadHistory(w)
 	out, code := w.runLfs("migrate", "import", "--fixup", "--everything", "--yes")
-	enc := fmt.Sprintf("C12 fixup-attrs seed=%d idx=%d root=%q nested=%q", c.Seed, idx, root, nested)
+	enc := fmt.Sprintf("C12 fixup-attrs seed=%d idx=%d root=%q nested=%q attrs-change-at=%d", c.Seed, idx, root, nested, changeAt)
 	c.R.Eval(enc, true)
 	c.R.Count("import.fixup-attrs")
 	if code != 0 {
@@ -702,7 +722,7 @@ func c12FixupAttrs(c *Ctx, idx int, r *Rng) {
 	collect("", root)
 	collect("sub", nested)
 	modelConv := map[string]string{}
-	{
+	if changeAt < 0 {
 		probe := filepath.Join(base, "probe")
 		matches := make([]map[string]string, len(alines))
 		for k, al := range alines {
@@ -748,7 +768,13 @@ func c12FixupAttrs(c *Ctx, idx int, r *Rng) {
 				continue
 			}
 			b, isPtr, have := c12Resolve(w, cache, e.blob)
-			wantPtr := eff[e.path] == "lfs"
+			wantPtr := effPer[i][e.path] == "lfs"
+			sig := ""
+			if changeAt >= 0 && i >= changeAt {
+				if prev, ok := contents[changeAt-1][e.path]; ok && bytes.Equal(prev, orig) && (effPer[changeAt-1][e.path] == "lfs") == isPtr {
+					sig = "D59" // the blob was decided on in an earlier commit, under other attributes, and is reused
+				}
+			}
 			if mc, ok := modelConv[e.path]; ok && (mc == "1") != isPtr {
 				c.R.Add(Finding{Kind: "diff", What: "migrate import --fixup: representation differs from the model's decision (last matching filter line)", Case: enc,
 					Impl: fmt.Sprintf("commit %d: %s pointer=%v", i+1, e.path, isPtr), Model: mc, Broken: "corr.C12.fixupattr"})
@@ -759,8 +785,8 @@ func c12FixupAttrs(c *Ctx, idx int, r *Rng) {
 				c.R.Count("import.fixup-attrs.overridden")
 			}
 			if isPtr != wantPtr {
-				c.R.Add(Finding{Kind: "oracle", What: "migrate import --fixup: a path changed representation against Git's effective `filter` attribute (last matching line wins)", Case: enc,
-					Impl: fmt.Sprintf("commit %d: %s is pointer=%v, git check-attr filter says %q", i+1, e.path, isPtr, eff[e.path])})
+				c.R.Add(Finding{Kind: "oracle", What: "migrate import --fixup: a path changed representation against Git's effective `filter` attribute (last matching line wins)", Case: enc, Sig: sig,
+					Impl: fmt.Sprintf("commit %d: %s is pointer=%v, git check-attr filter says %q", i+1, e.path, isPtr, effPer[i][e.path])})
 			}
 			if !have || !bytes.Equal(b, orig) {
 				c.R.Add(Finding{Kind: "oracle", What: "migrate import --fixup changed the content of a file", Case: enc, Impl: fmt.Sprintf("commit %d: %s", i+1, e.path)})
